@@ -167,3 +167,9 @@ func mustNoPanic(f func()) (panicked interface{}) {
 	f()
 	return nil
 }
+
+
+func refTorsion(i int) [2]*big.Int {
+	tp := ref.Ed.Torsion()[i%8]
+	return [2]*big.Int{tp.X, tp.Y}
+}
